@@ -75,7 +75,14 @@ func textdvGenEnum(c *Ctx, idx int) textdvEnum {
 	}
 	fd, err := protodesc.NewFile(fdp, nil)
 	if err != nil {
-		panic(fmt.Sprintf("textdv: enum construction failed: %v", err))
+		// not expected; fall back to a fixed enum rather than abort the run
+		c.Stat("enum.rejected")
+		ed.Options = nil
+		ed.Value = []*descriptorpb.EnumValueDescriptorProto{
+			{Name: proto.String("A"), Number: proto.Int32(0)}, {Name: proto.String("B"), Number: proto.Int32(-1)}}
+		if fd, err = protodesc.NewFile(fdp, nil); err != nil {
+			panic(fmt.Sprintf("textdv: enum construction failed: %v", err))
+		}
 	}
 	e := textdvEnum{ed: fd.Enums().Get(0)}
 	vs := e.ed.Values()
